@@ -313,6 +313,7 @@ def part_b(chk: Check, rnd: random.Random, thorough: bool) -> None:
         steps = rnd.randint(15, 70)
         tempo = rnd.choice(("fast", "mixed", "slow"))
         fg = []
+        sent: list = []
         for _ in range(steps):
             if tempo == "fast":
                 gap = rnd.choice((0.1, 1.0, 30.0, 200.0))
@@ -322,6 +323,10 @@ def part_b(chk: Check, rnd: random.Random, thorough: bool) -> None:
                 gap = rnd.choice((0.1, 5.0, 180.0, 360.0, 400.0, 723.0, 1000.0, 3603.0, 7203.5, 10000.0))
             r = rnd.random()
             fr = None if r < 0.15 else (gen_noise(rnd) if r < 0.4 else gen_ctl_frame(rnd, CTL))
+            if r >= 0.4 and sent and rnd.random() < 0.3:
+                fr = rnd.choice(sent[-6:])      # a steady value is announced again, byte for byte
+            elif r >= 0.4:
+                sent.append(fr)
             fg.append((gap, fr))
 
         async def body(loop, fg=fg):
